@@ -173,6 +173,9 @@ class Interp:
         if isinstance(fn, StaticM):
             return self._call(fn.func, args, kwargs)
         if isinstance(fn, Closure):
+            if fn.attrs.get("contextmanager"):
+                from .stdlib import GenCtxMgr
+                return GenCtxMgr(fn, list(args), dict(kwargs))
             hook = self.rt.hooks.get(fn.info.fullname)
             if hook is not None:
                 res = hook(self, fn, list(args), dict(kwargs))
@@ -487,6 +490,13 @@ class Interp:
             self.unsupported("with several items", st)
         item = st.items[0]
         mgr = self.eval(item.context_expr, frame)
+        from .stdlib import GenCtxMgr
+        if isinstance(mgr, GenCtxMgr):
+            def body(value):
+                if item.optional_vars is not None:
+                    self.assign(item.optional_vars, value, frame)
+                self.exec_block(st.body, frame)
+            return self.run_ctxmgr(mgr, body)
         enter = self.rt.context_enter(self, mgr)
         if item.optional_vars is not None:
             self.assign(item.optional_vars, enter, frame)
@@ -502,6 +512,35 @@ class Interp:
             self.rt.context_exit(self, mgr, None)
 
     x_AsyncWith = x_With
+
+    def run_ctxmgr(self, mgr, body):
+        """
+        ``with cm(...) as v: BODY`` for an @contextmanager generator function (DESIGN 3.8): the function is
+        executed; at its (single) ``yield v`` BODY runs; an exception of BODY is raised AT the yield (gen.throw),
+        so the function's except/finally clauses see it; a function that returns normally afterwards has
+        swallowed it.
+        """
+        fn = mgr.closure
+        info = fn.info
+        frame = Frame(fn, fn.module, parent=fn.frame)
+        self.bind_args(frame, info.node.args, fn.defaults, fn.kwdefaults, mgr.args, mgr.kwargs, info.qualname)
+        state = {"yields": 0}
+
+        def at_yield(value):
+            state["yields"] += 1
+            if state["yields"] > 1:
+                self.raise_py("RuntimeError", "generator didn't stop")
+            body(value)
+        frame.yielded = []
+        frame.yield_callback = at_yield
+        try:
+            self.exec_block(info.node.body, frame)
+        except ReturnSignal as r:
+            if getattr(r, "from_ctx_body", False):
+                raise
+        if state["yields"] == 0:
+            self.raise_py("RuntimeError", "generator didn't yield")
+        return None
 
     # ------------------------------------------------------------------ expressions
     def eval(self, e, frame):
@@ -530,6 +569,10 @@ class Interp:
         v = self.eval(e.value, frame) if e.value is not None else None
         if frame.yielded is None:
             self.unsupported("yield outside a generator frame", e)
+        cb = getattr(frame, "yield_callback", None)
+        if cb is not None:
+            cb(v)
+            return None
         if self.on_yield is not None:
             self.on_yield(self, frame, v)
         frame.yielded.append(v)
